@@ -11,6 +11,13 @@ from pathlib import Path
 from vf.core import Ctx
 from vf.tlc import MachineryError, TlcResult, require_ok, run_tlc, sany, tla_value
 
+# Short TLC runs (a few 10^4..10^5 states) are dominated by JIT warm-up on a busy machine: C1-only is ~2x faster.
+FAST_JVM = {"JAVA_TOOL_OPTIONS": "-XX:TieredStopAtLevel=1"}
+
+
+def _jvm(ctx: Ctx) -> dict:
+    return dict(FAST_JVM) if ctx.quick else {}
+
 
 def cfg_text(*, spec: str = "Spec", constants: dict | None = None, invariants=(), constraint=(),
              postcondition: str | None = None, deadlock: bool = False) -> str:
@@ -32,10 +39,11 @@ def strset(*xs: str) -> frozenset:
 
 
 def model_check(ctx: Ctx, wd: Path, module: str, name: str, constants: dict, invariants, *, timeout: int = 900,
-                spec: str = "Spec", constraint=()) -> TlcResult:
+                spec: str = "Spec", constraint=(), deadlock: bool = False, workers: int | str = "auto") -> TlcResult:
     """Exhaustive TLC run of the intended model; failure of its own invariants is a machinery failure."""
-    r = run_tlc(wd, module, cfg_text(spec=spec, constants=constants, invariants=invariants, constraint=constraint),
-                timeout=timeout, cfg_name=f"{module}_{name}.cfg")
+    r = run_tlc(wd, module, cfg_text(spec=spec, constants=constants, invariants=invariants, constraint=constraint,
+                                     deadlock=deadlock),
+                timeout=timeout, cfg_name=f"{module}_{name}.cfg", workers=workers, env=_jvm(ctx))
     ctx.add_tlc(f"{module}:{name}", r)
     require_ok(r, f"{module} model checking ({name})")
     return r
@@ -54,7 +62,8 @@ def validate_traces(ctx: Ctx, wd: Path, module: str, traces: list[dict], constan
         f.write_text(json.dumps(part))
         r = run_tlc(wd, module, cfg_text(spec=spec, constants=constants, constraint=constraint,
                                          postcondition=postcondition),
-                    workers=1, timeout=timeout, env={"TRACE_FILE": str(f)}, cfg_name=f"{module}_trace.cfg")
+                    workers=1, timeout=timeout, env={"TRACE_FILE": str(f), **_jvm(ctx)},
+                    cfg_name=f"{module}_trace.cfg")
         ctx.add_tlc(f"{module}:traces[{off}:{off + len(part)}]", r)
         require_ok(r, f"{module} trace validation")
         seen = set()
